@@ -137,4 +137,172 @@ theorem nodeOK_congr (lang : Lang) (d : NodeData) (kids kids' : List Tree) (h : 
       exact ⟨by rw [← this.1]; exact hok.1, by rw [← this.2.1]; exact hok.2.1, by rw [← this.2.2.1]; exact hok.2.2.1,
         by rw [← this.2.2.2.1]; exact hok.2.2.2.1, by rw [← this.2.2.2.2.1]; exact hok.2.2.2.2.1, by rw [← this.2.2.2.2.2]; exact hok.2.2.2.2.2⟩
 
+
+/-! ## Alias-free, non-error nodes: counts and error cost are plain sums -/
+
+theorem allZero_getD (a : Array Nat) (h : a.all (· == 0) = true) (i : Nat) : a.getD i 0 = 0 := by
+  rw [Array.getD_eq_getD_getElem?]
+  cases hi : a[i]? with
+  | none => rfl
+  | some x =>
+    have := Array.all_eq_true.mp h
+    obtain ⟨hlt, hx⟩ := Array.getElem?_eq_some_iff.mp hi
+    have := this i hlt
+    simp [hx] at this
+    simp [this]
+
+theorem aliasFree_at (lang : Lang) (pid : Nat) (h : aliasFree lang pid = true) (i : Nat) : lang.aliasAt pid i = 0 := by
+  unfold aliasFree at h
+  unfold Lang.aliasAt
+  by_cases hp : pid = 0
+  · simp [hp]
+  · simp only [hp, if_false]
+    have : (pid == 0) = false := by simpa using hp
+    simp only [this, Bool.false_or] at h
+    exact allZero_getD _ h i
+
+/-- What a child adds to the three counts when the parent's production aliases nothing. -/
+def cnt0 (c : Tree) : Nat × Nat × Nat :=
+  if c.data.visible then (1, (if c.data.named then 1 else 0), c.data.visibleDescendantCount + 1)
+  else if c.kids.length > 0 then (c.data.visibleChildCount, c.data.namedChildCount, c.data.visibleDescendantCount)
+  else (0, 0, c.data.visibleDescendantCount)
+
+theorem childCounts_aliasFree (lang : Lang) (pid si : Nat) (c : Tree) (h : aliasFree lang pid = true) :
+    childCounts lang pid si c = cnt0 c := by
+  unfold childCounts aliasedAt cnt0
+  simp [aliasFree_at lang pid h si]
+
+def sumC (g : Tree → Nat) : List Tree → Nat
+  | [] => 0
+  | c :: rest => g c + sumC g rest
+
+theorem sumC_append (g : Tree → Nat) : ∀ (a b : List Tree), sumC g (a ++ b) = sumC g a + sumC g b
+  | [], b => by simp [sumC]
+  | c :: a, b => by simp [sumC, sumC_append g a b, Nat.add_assoc]
+
+theorem sumErr_append (sym : Nat) : ∀ (a b : List Tree), sumErr sym (a ++ b) = sumErr sym a + sumErr sym b
+  | [], b => by simp [sumErr]
+  | c :: a, b => by simp [sumErr, sumErr_append sym a b, Nat.add_assoc]
+
+theorem sumSI_aliasFree (lang : Lang) (pid : Nat) (h : aliasFree lang pid = true) (sel : Nat × Nat × Nat → Nat) :
+    ∀ (kids : List Tree) (si : Nat), sumSI (fun si c => sel (childCounts lang pid si c)) kids si = sumC (fun c => sel (cnt0 c)) kids
+  | [], _ => rfl
+  | c :: rest, si => by
+    simp only [sumSI, sumC]
+    rw [childCounts_aliasFree lang pid si c h, sumSI_aliasFree lang pid h sel rest]
+
+/-- The four summaries of a re-summarized alias-free node whose symbol is not an error symbol. -/
+theorem summarize_rot (lang : Lang) (d : NodeData) (kids : List Tree) (ha : aliasFree lang d.productionId = true)
+    (he : isErrSym d.symbol = false) :
+    (summarize lang length_zero d kids).errorCost = sumErr d.symbol kids ∧
+    (summarize lang length_zero d kids).visibleChildCount = sumC (fun c => (cnt0 c).1) kids ∧
+    (summarize lang length_zero d kids).namedChildCount = sumC (fun c => (cnt0 c).2.1) kids ∧
+    (summarize lang length_zero d kids).visibleDescendantCount = sumC (fun c => (cnt0 c).2.2) kids := by
+  have hc := summarize_counts_eq lang length_zero d kids
+  have hec := summarize_errorCost_eq lang length_zero d kids
+  refine ⟨by rw [hec]; simp [he], ?_, ?_, ?_⟩
+  · rw [hc.1]; exact sumSI_aliasFree lang _ ha (fun x => x.1) kids 0
+  · rw [hc.2.1]; exact sumSI_aliasFree lang _ ha (fun x => x.2.1) kids 0
+  · rw [hc.2.2]; exact sumSI_aliasFree lang _ ha (fun x => x.2.2) kids 0
+
+/-- What a hidden, non-MISSING inner node whose symbol is not `_ERROR` adds to its parent's sums:
+its own cached values. -/
+theorem contrib_hidden (sym : Nat) (c : Tree) (hv : c.data.visible = false) (hm : c.data.isMissing = false)
+    (hk : c.kids.length > 0) (hs : c.data.symbol ≠ symErrorRepeat) (he : isErrSym sym = false) :
+    cnt0 c = (c.data.visibleChildCount, c.data.namedChildCount, c.data.visibleDescendantCount) ∧
+    childErrorCost sym c = c.data.errorCost := by
+  refine ⟨by simp [cnt0, hv, hk], ?_⟩
+  unfold childErrorCost errorCostOf
+  simp [hs, hm, he]
+
+theorem sum_dropLast (g : Tree → Nat) (l : List Tree) (x : Tree) (h : l.getLast? = some x) : sumC g l = sumC g l.dropLast + g x := by
+  have := dropLast_append_getLast l x h
+  conv => lhs; rw [← this]
+  rw [sumC_append]; simp [sumC]
+
+theorem sumErr_dropLast (sym : Nat) (l : List Tree) (x : Tree) (h : l.getLast? = some x) :
+    sumErr sym l = sumErr sym l.dropLast + childErrorCost sym x := by
+  have := dropLast_append_getLast l x h
+  conv => lhs; rw [← this]
+  rw [sumErr_append]; simp [sumErr]
+
+theorem rotP_parts (lang : Lang) (d : NodeData) (h : rotP lang d = true) :
+    d.visible = false ∧ d.extra = false ∧ d.isMissing = false ∧ aliasFree lang d.productionId = true := by
+  have : ((d.visible = false ∧ d.extra = false) ∧ d.isMissing = false) ∧ aliasFree lang d.productionId = true := by simpa [rotP] using h
+  exact ⟨this.1.1.1, this.1.1.2, this.1.2, this.2⟩
+
+theorem resummarize_data (lang : Lang) (d : NodeData) (c : Tree) (rest : List Tree) :
+    (resummarize lang (.mk d (c :: rest))).data = summarize lang length_zero d (c :: rest) ∧
+    (resummarize lang (.mk d (c :: rest))).kids = c :: rest := by
+  simp [resummarize, Tree.data, Tree.kids]
+
+theorem summarize_static (lang : Lang) (init : Length) (d : NodeData) (kids : List Tree) :
+    (summarize lang init d kids).symbol = d.symbol ∧ (summarize lang init d kids).extra = d.extra ∧
+    (summarize lang init d kids).visible = d.visible ∧ (summarize lang init d kids).named = d.named ∧
+    (summarize lang init d kids).isMissing = d.isMissing ∧ (summarize lang init d kids).productionId = d.productionId ∧
+    (summarize lang init d kids).refCount = d.refCount ∧ (summarize lang init d kids).isInline = d.isInline := by
+  simp [summarize]
+
+/-- **rotation_sums.**  One rotation `C = [G = [g₁ … gₚ], cs] ↦ G' = [g₁ … gₚ₋₁, C' = [gₚ, cs]]` of
+hidden alias-free nodes of a non-error symbol: the new top node `G'` has the error cost and the three
+counts the old top node `C` had (`C`, `G` summarized). -/
+theorem rotation_sums (lang : Lang) (sym : Nat) (cd gd : NodeData) (gs cs : List Tree) (gp : Tree)
+    (hcs : cd.symbol = sym) (hgs : gd.symbol = sym) (he : isErrSym sym = false)
+    (hrc : rotP lang cd = true) (hrg : rotP lang gd = true) (hgl : gs.getLast? = some gp) (hgne : gs ≠ [])
+    (hG : NodeOK lang gd gs) (hC : NodeOK lang cd (.mk gd gs :: cs)) :
+    let C' := resummarize lang (.mk cd (gp :: cs))
+    let G' := resummarize lang (.mk gd (gs.dropLast ++ [C']))
+    G'.data.errorCost = cd.errorCost ∧ G'.data.visibleChildCount = cd.visibleChildCount ∧
+    G'.data.namedChildCount = cd.namedChildCount ∧ G'.data.visibleDescendantCount = cd.visibleDescendantCount := by
+  intro C' G'
+  obtain ⟨hcv, hcx, hcm, hca⟩ := rotP_parts lang cd hrc
+  obtain ⟨hgv, hgx, hgm, hga⟩ := rotP_parts lang gd hrg
+  have hsne : sym ≠ symErrorRepeat := by
+    intro h0; subst h0; simp [isErrSym] at he
+  have hecd : isErrSym cd.symbol = false := by rw [hcs]; exact he
+  have hegd : isErrSym gd.symbol = false := by rw [hgs]; exact he
+  -- the old nodes, by NodeOK
+  have hGs := summarize_rot lang gd gs hga hegd
+  have hCs := summarize_rot lang cd (.mk gd gs :: cs) hca hecd
+  unfold NodeOK at hG hC
+  have hgk : (Tree.mk gd gs).kids.length > 0 := by
+    cases gs with
+    | nil => exact absurd rfl hgne
+    | cons a b => simp [Tree.kids]
+  have hGc := contrib_hidden sym (.mk gd gs) hgv hgm hgk (by simpa [Tree.data, hgs] using hsne) he
+  simp only [Tree.data] at hGc
+  -- the new nodes
+  have hC'd : C'.data = summarize lang length_zero cd (gp :: cs) := (resummarize_data lang cd gp cs).1
+  have hC's := summarize_rot lang cd (gp :: cs) hca hecd
+  have hst := summarize_static lang length_zero cd (gp :: cs)
+  have hC'k : C'.kids.length > 0 := by rw [(resummarize_data lang cd gp cs).2]; simp
+  have hC'c := contrib_hidden sym C' (by rw [hC'd, hst.2.2.1]; exact hcv) (by rw [hC'd, hst.2.2.2.2.1]; exact hcm) hC'k
+    (by rw [hC'd, hst.1, hcs]; exact hsne) he
+  have hG'd : G'.data = summarize lang length_zero gd (gs.dropLast ++ [C']) := by
+    show (resummarize lang (.mk gd (gs.dropLast ++ [C']))).data = _
+    cases hdl : gs.dropLast ++ [C'] with
+    | nil => simp at hdl
+    | cons a b => exact (resummarize_data lang gd a b).1
+  have hG's := summarize_rot lang gd (gs.dropLast ++ [C']) hga hegd
+  rw [hG'd]
+  rw [hgs] at hG's hGs
+  rw [hcs] at hC's hCs
+  refine ⟨?_, ?_, ?_, ?_⟩
+  · rw [hG's.1, sumErr_append, hC.2.2.1, hCs.1]
+    simp only [sumErr, Nat.add_zero]
+    rw [hC'c.2, hC'd, hC's.1, hGc.2, hG.2.2.1, hGs.1, sumErr_dropLast sym gs gp hgl]
+    simp only [sumErr]; omega
+  · rw [hG's.2.1, sumC_append, hC.2.2.2.1, hCs.2.1]
+    simp only [sumC, Nat.add_zero]
+    rw [hC'c.1, hC'd, hC's.2.1, hGc.1, hG.2.2.2.1, hGs.2.1, sum_dropLast _ gs gp hgl]
+    simp only [sumC]; omega
+  · rw [hG's.2.2.1, sumC_append, hC.2.2.2.2.1, hCs.2.2.1]
+    simp only [sumC, Nat.add_zero]
+    rw [hC'c.1, hC'd, hC's.2.2.1, hGc.1, hG.2.2.2.2.1, hGs.2.2.1, sum_dropLast _ gs gp hgl]
+    simp only [sumC]; omega
+  · rw [hG's.2.2.2, sumC_append, hC.2.2.2.2.2, hCs.2.2.2]
+    simp only [sumC, Nat.add_zero]
+    rw [hC'c.1, hC'd, hC's.2.2.2, hGc.1, hG.2.2.2.2.2, hGs.2.2.2, sum_dropLast _ gs gp hgl]
+    simp only [sumC]; omega
+
 end TsVerif.C02
